@@ -13,10 +13,12 @@ namespace Uquic.Proofs.Cong
 open Uquic.Model.Cong
 
 /-- every congestion event `ReceivedAck` raises is either the ECN-CE event, for the frame's largest
-acknowledged packet, or a loss event for a packet that loss detection declared lost -/
-theorem ackCalls_cong (g : Glue) (ranges : List (Int × Int)) (congested : Bool) (lost : List Int) :
-    ∀ c ∈ g.ackCalls ranges congested lost, ∀ pn b p, c = Call.cong pn b p →
-      (congested = true ∧ pn = largestOf ranges ∧ b = 0) ∨ pn ∈ lost := by
+acknowledged packet, or a loss event for an outstanding packet (ack-eliciting, no Path MTU probe, no
+path probe) that loss detection removed, with that packet's own number and size -/
+theorem ackCalls_cong (g : Glue) (ranges : List (Int × Int)) (congested : Bool) (gone : List (Nat × Int)) (sp : Nat) :
+    ∀ c ∈ g.ackCalls ranges congested gone sp, ∀ pn b p, c = Call.cong pn b p →
+      (congested = true ∧ pn = largestOf ranges ∧ b = 0) ∨
+      ∃ q ∈ g.out, q.outstanding = true ∧ q.key ∈ gone ∧ q.pn = pn ∧ q.size = b := by
   intro c hc pn b p e
   subst e
   unfold Glue.ackCalls at hc
@@ -31,56 +33,63 @@ theorem ackCalls_cong (g : Glue) (ranges : List (Int × Int)) (congested : Bool)
         simp only [List.mem_singleton, Call.cong.injEq] at hc
         exact Or.inl ⟨hcg, hc.1, hc.2.1⟩
       · simp at hc
-    · obtain ⟨q, ⟨_, hq⟩, he⟩ := hc
+    · obtain ⟨q, ⟨⟨hq0, _⟩, hq⟩, he⟩ := hc
       simp only [Call.cong.injEq] at he
       simp only [Bool.and_eq_true, List.contains_eq_mem, decide_eq_true_eq] at hq
-      exact Or.inr (he.1 ▸ hq.2)
+      exact Or.inr ⟨q, hq0, hq.1, hq.2, he.1, he.2.1⟩
     · obtain ⟨q, _, he⟩ := hc
       cases he
 
-theorem timeoutCalls_cong (g : Glue) (lost : List Int) :
-    ∀ c ∈ g.timeoutCalls lost, ∃ pn b p, c = Call.cong pn b p ∧ pn ∈ lost := by
+theorem timeoutCalls_cong (g : Glue) (gone : List (Nat × Int)) :
+    ∀ c ∈ g.timeoutCalls gone, ∃ q ∈ g.out, q.outstanding = true ∧ q.key ∈ gone ∧ c = Call.cong q.pn q.size g.bytesInFlight := by
   intro c hc
   unfold Glue.timeoutCalls at hc
   simp only [List.mem_map, List.mem_filter, Bool.and_eq_true, List.contains_eq_mem, decide_eq_true_eq] at hc
-  obtain ⟨q, ⟨_, hq⟩, he⟩ := hc
-  exact ⟨q.pn, q.size, g.bytesInFlight, he.symm, hq.2⟩
+  obtain ⟨q, ⟨hq0, hq⟩, he⟩ := hc
+  exact ⟨q, hq0, hq.1, hq.2, he.symm⟩
 
 theorem toOp_lost (c : Call) (pn : Int) (b p : Nat) (h : c.toOp = Op.lost pn b p) : c = Call.cong pn b p := by
   cases c <;> simp [Call.toOp] at h ⊢
   exact h
 
+theorem drop_s (g : Glue) (f : Pkt → Bool) : (g.drop f).s = g.s := rfl
+
 /-- An ACK frame whose ECN-CE signal (if any) is for a largest-acknowledged packet at or below the
 cut-back mark, and whose lost packets are all at or below it, does not shrink the window. -/
-theorem ack_old_window (g : Glue) (ranges : List (Int × Int)) (congested : Bool) (lost tracked : List Int)
+theorem ack_old_window (g : Glue) (ranges : List (Int × Int)) (congested : Bool) (gone : List (Nat × Int)) (sp : Nat) (ph : List Int)
     (hce : congested = true → largestOf ranges ≤ g.s.lastCutback)
-    (hl : ∀ pn ∈ lost, pn ≤ g.s.lastCutback) :
-    g.s.cwnd ≤ (g.ack ranges congested lost tracked).1.s.cwnd ∧
-    (g.ack ranges congested lost tracked).1.s.lastCutback = g.s.lastCutback := by
-  simp only [Glue.ack, Glue.apply]
-  apply run_old_loss
-  intro op hop pn b p e
-  simp only [List.mem_map] at hop
-  obtain ⟨c, hc, hco⟩ := hop
-  have hcc := toOp_lost c pn b p (hco.trans e)
-  rcases ackCalls_cong g ranges congested lost c hc pn b p hcc with ⟨h1, h2, _⟩ | h
-  · rw [h2]; exact hce h1
-  · exact hl pn h
+    (hl : ∀ k ∈ gone, k.2 ≤ g.s.lastCutback) :
+    g.s.cwnd ≤ (g.ack ranges congested gone sp ph).1.s.cwnd ∧
+    (g.ack ranges congested gone sp ph).1.s.lastCutback = g.s.lastCutback := by
+  unfold Glue.ack
+  split
+  · exact ⟨Nat.le_refl _, rfl⟩
+  · simp only [drop_s, Glue.apply]
+    apply run_old_loss
+    intro op hop pn b p e
+    simp only [List.mem_map] at hop
+    obtain ⟨c, hc, hco⟩ := hop
+    have hcc := toOp_lost c pn b p (hco.trans e)
+    rcases ackCalls_cong g ranges congested gone sp c hc pn b p hcc with ⟨h1, h2, _⟩ | ⟨q, _, _, hk, hq, _⟩
+    · rw [h2]; exact hce h1
+    · have := hl q.key hk
+      simpa [Pkt.key, hq] using this
 
-theorem timeout_old_window (g : Glue) (lost tracked : List Int)
-    (hl : ∀ pn ∈ lost, pn ≤ g.s.lastCutback) :
-    g.s.cwnd ≤ (g.timeout lost tracked).1.s.cwnd ∧
-    (g.timeout lost tracked).1.s.lastCutback = g.s.lastCutback := by
-  simp only [Glue.timeout, Glue.apply]
+theorem timeout_old_window (g : Glue) (gone : List (Nat × Int)) (ph : List Int)
+    (hl : ∀ k ∈ gone, k.2 ≤ g.s.lastCutback) :
+    g.s.cwnd ≤ (g.timeout gone ph).1.s.cwnd ∧
+    (g.timeout gone ph).1.s.lastCutback = g.s.lastCutback := by
+  simp only [Glue.timeout, drop_s, Glue.apply]
   apply run_old_loss
   intro op hop pn b p e
   simp only [List.mem_map] at hop
   obtain ⟨c, hc, hco⟩ := hop
   have hcc := toOp_lost c pn b p (hco.trans e)
-  obtain ⟨pn', b', p', he, hm⟩ := timeoutCalls_cong g lost c hc
+  obtain ⟨q, _, _, hk, he⟩ := timeoutCalls_cong g gone c hc
   rw [hcc] at he
   simp only [Call.cong.injEq] at he
-  exact hl pn (he.1 ▸ hm)
+  have := hl q.key hk
+  simpa [Pkt.key, he.1] using this
 
 /-! ### the pacer and time stamps that go backwards -/
 
